@@ -269,13 +269,23 @@ func (c *Ctx) uncondPrep(rule string, fi *FuncInfo, callees []string, clause str
 			if fn == nil || !inRepo(fn) {
 				return true
 			}
-			want := false
+			var reached []string
 			for _, nm := range callees {
 				if fn.Name() == nm {
-					want = true
+					reached = []string{nm}
 				}
 			}
-			if !want {
+			if reached == nil && !fn.Exported() && fn.Pkg() == fi.Pkg.Types {
+				// a preparation helper of the package (`prepareBootTree(ref, boot) error`) stands for the
+				// calls it makes
+				for _, nm := range callees {
+					nm := nm
+					if c.reaches(fn, func(h *types.Func) bool { return h.Name() == nm && inRepo(h) && h != fn }, 2, map[*types.Func]bool{}) {
+						reached = append(reached, nm)
+					}
+				}
+			}
+			if reached == nil {
 				return true
 			}
 			// inside a loop over a channel
@@ -291,8 +301,11 @@ func (c *Ctx) uncondPrep(rule string, fi *FuncInfo, callees []string, clause str
 				return true
 			}
 			seen[call] = true
-			n++
-			key := fmt.Sprintf("%s/%s#%d", funcName(fi.Obj), fn.Name(), n)
+			n += len(reached)
+			key := fmt.Sprintf("%s/%s#%d", funcName(fi.Obj), strings.Join(reached, "+"), n)
+			for extra := 1; extra < len(reached); extra++ {
+				c.OK(rule, fmt.Sprintf("%s/%s#%d(same call)", funcName(fi.Obj), reached[extra], n-extra), call.Pos(), "made by the same preparation helper").Clause = clause
+			}
 			conds, _ := c.pathConds(info, loop.Body, call, false)
 			bad := ""
 			for _, cd := range flattenConds(conds) {
@@ -877,25 +890,34 @@ func (c *Ctx) descendAll(rule string, fi *FuncInfo, clause string) int {
 			}
 			return true
 		})
-		// the call itself: its own path conditions besides the previous-node test and error tests
-		conds, _ := c.pathConds(info, rs.Body, rec, false)
-		for _, cd := range flattenConds(conds) {
-			if cd.Expr == nil || bad != nil {
+		// the call itself: the conditions of the if statements it is nested in (a guard that leaves with
+		// an error before the call is not a skip, and a `continue` before it was looked at above)
+		st := stackTo(rs.Body, rec)
+		for k := 0; k+1 < len(st) && bad == nil; k++ {
+			is, isIf := st[k].(*ast.IfStmt)
+			if !isIf || st[k+1] == ast.Node(is.Init) || nodeContains(is.Cond, rec.Pos()) {
 				continue
 			}
-			if errGuard(info, unparen(cd.Expr)) {
-				continue
-			}
-			if be, isBin := unparen(cd.Expr).(*ast.BinaryExpr); isBin && (be.Op == token.EQL || be.Op == token.NEQ) && child != nil {
-				if (identObj(info, be.X) == child && isNodePtr(info.TypeOf(be.Y))) || (identObj(info, be.Y) == child && isNodePtr(info.TypeOf(be.X))) {
+			inElse := is.Else != nil && st[k+1] == ast.Node(is.Else)
+			for _, cd := range flattenConds([]cond{{Expr: is.Cond, Neg: inElse}}) {
+				if cd.Expr == nil || errGuard(info, unparen(cd.Expr)) {
 					continue
 				}
+				if be, isBin := unparen(cd.Expr).(*ast.BinaryExpr); isBin && (be.Op == token.EQL || be.Op == token.NEQ) && child != nil {
+					if (identObj(info, be.X) == child && isNodePtr(info.TypeOf(be.Y))) || (identObj(info, be.Y) == child && isNodePtr(info.TypeOf(be.X))) {
+						continue
+					}
+				}
+				// the other branch of this if leaves with an error: a validity test, not a skip
+				other := ast.Stmt(is.Else)
+				if inElse {
+					other = is.Body
+				}
+				if blk, isBlk := other.(*ast.BlockStmt); isBlk && c.leaves(info, blk.List) {
+					continue
+				}
+				bad, badCond = rec, c.src(cd.Expr)
 			}
-			// a guard whose failing branch returns an error is not a skip
-			if cd.Neg {
-				continue
-			}
-			bad, badCond = rec, c.src(cd.Expr)
 		}
 		if bad != nil {
 			c.Violation(rule, key, bad.Pos(), fmt.Sprintf("the walk skips a neighbour under `%s`: everything behind that neighbour is left out of the search, although a longest path may run through it", badCond)).Clause = clause
